@@ -72,6 +72,7 @@ func cmdCheck(args []string) int {
 	cc.timeout = 30 * time.Second
 	if *tier == "thorough" {
 		cc.timeout = 120 * time.Second
+		coverPaths = 1 << 20
 	}
 	cc.cs = loadContracts(*repo, *verif)
 	known := loadKnown(*verif)
